@@ -317,7 +317,7 @@ func TestKnown_C08_DoubleDemote_GraceExpiry(t *testing.T) {
 		e.connectionMonitor.SetStatus(ConnectionStatusDisconnected)
 		// the other detector fires between the handler's leader check and its demotion
 		lg.set("demoting_due_to_connection_loss", func() { e.handleHeartbeatFailure(errors.New("heartbeat")) })
-		e.disconnectHandler.handleGracePeriodExpired()
+		e.disconnectHandler.handleGracePeriodExpired(e.disconnectHandler.generation)
 	})
 }
 func TestKnown_C08_DoubleDemote_ReconnectVerification(t *testing.T) {
